@@ -633,6 +633,95 @@ Definition ecase_ok (c: kv * string * bool * bool * string * option string * boo
 """
 
 
+LOOP_DEFS = """
+(* the text of the whole `kwargs = {}` loop of the REAL _add_pack_method_lines = the concatenation, field by field, of the
+   text the TRANSLATED loop body (kernel K108a, pack_field_lines) produces from the per-field data of the real builder *)
+Definition fcase := (kv * string * bool * option string * bool * bool * string * string)%type.
+Definition field_text (sba fv od on fon fba: bool) (f: fcase) : option (list string) :=
+  match f with (dv, lit, isnan, al, nullable, trivial, fname, packer) =>
+    match pack_field_lines dv (KStr lit) (KBool isnan) (KBool sba) (match al with Some a => KStr a | None => KNone end)
+                           (KBool nullable) (KBool trivial) (KBool fv) (KBool od) (KBool on) (KBool fon) (KBool fba)
+                           (KStr fname) (KStr packer) with
+    | Ok l => Some (render 8 "" l)
+    | _ => None end end.
+Fixpoint all_text (sba fv od on fon fba: bool) (fs: list fcase) : option (list string) :=
+  match fs with
+  | [] => Some []
+  | f :: r => match field_text sba fv od on fon fba f, all_text sba fv od on fon fba r with
+              | Some a, Some b => Some (a ++ b)%list | _, _ => None end end.
+Definition lcase_ok (c: (bool * bool * bool * bool * bool * bool) * list fcase * list string) : bool :=
+  match c with ((sba, fv, od, on, fon, fba), fs, expected) =>
+    match all_text sba fv od on fon fba fs with Some t => strs_eqb t expected | None => false end end.
+"""
+
+
+def loop_case(ns: dict, cls: str, dialect, lcases: dict):
+    """the whole per-field part of the method text a REAL builder of the class writes (kwargs form only), next to the
+    per-field data the translated loop body gets.  Fails closed (a case that never holds)."""
+    from dataclasses import MISSING
+    try:
+        from mashumaro.core.meta.code.builder import CodeBuilder
+        from mashumaro.config import TO_DICT_ADD_BY_ALIAS_FLAG, TO_DICT_ADD_OMIT_NONE_FLAG
+        b = CodeBuilder(ns[cls], dialect=dialect, allow_postponed_evaluation=False)
+        b.reset()
+        config = b.get_config()
+        sba = bool(b.get_dialect_or_config_option("serialize_by_alias", False))
+        od = bool(b.get_dialect_or_config_option("omit_default", False))
+        on = bool(b.get_dialect_or_config_option("omit_none", False))
+        fon = bool(b.is_code_generation_option_enabled(TO_DICT_ADD_OMIT_NONE_FLAG))
+        fba = bool(b.is_code_generation_option_enabled(TO_DICT_ADD_BY_ALIAS_FLAG))
+        fv = od                                                   # force_value = omit_default
+        items = list(b.get_field_types(include_extras=True).items())
+        if config.sort_keys:
+            items = sorted(items, key=lambda x: x[0])
+        literal_of = b.get_field_default_literal
+        lits, dflt = {}, {}
+        for fname, ftype in items:
+            default = b.get_field_default(fname, call_factory=True)
+            dflt[fname] = default
+            lits[fname] = literal_of(default) if default is not MISSING else ""
+        # the literal of a default without a Python literal is a fresh name on every call (so are the names of union
+        # packers): pin the literal per field, record what _get_field_packer returns DURING the real emission
+        real_set = b._pack_method_set_value
+        real_packer = b._get_field_packer
+        cur, seen = {}, []
+
+        def get_field_packer(fname, ftype, config, force_value):
+            r = real_packer(fname, ftype, config, force_value)
+            seen.append((fname, force_value) + tuple(r))
+            return r
+        b._get_field_packer = get_field_packer
+
+        def set_value(**kw):
+            cur["f"] = kw["fname"]
+            return real_set(**kw)
+        b._pack_method_set_value = set_value
+        b.get_field_default_literal = lambda v: lits[cur["f"]]
+        b.lines.reset()
+        b._add_pack_method_lines("m")
+        text = b.lines.as_text().split("\n")
+        if "kwargs = {}" not in text:
+            return                                            # dict literal form: no per-field statements
+        i = text.index("kwargs = {}")
+        if not text[-1].startswith("return "):
+            raise ValueError("no return line")
+        body = text[i + 1:-1]
+        fcs = []
+        for fname, force_value, packer, alias, could_be_none in seen:
+            if not repr_simple(fname) or (alias is not None and not repr_simple(alias)) or force_value != fv:
+                return
+            default = dflt[fname]
+            dv = "KMissing" if default is MISSING else ("KNone" if default is None else "(KObj 7)")
+            isnan = isinstance(default, float) and math.isnan(default)
+            al = "None" if alias is None else f"(Some {coq_str(alias)})"
+            fcs.append(f"({dv}, {coq_str(lits[fname])}, {coq_bool(isnan)}, {al}, {coq_bool(bool(could_be_none))}, "
+                       f"{coq_bool(packer == 'value')}, {coq_str(fname)}, {coq_str(packer)})")
+        lcases[f"(({coq_bool(sba)}, {coq_bool(fv)}, {coq_bool(od)}, {coq_bool(on)}, {coq_bool(fon)}, {coq_bool(fba)}), "
+               f"{coq_list(fcs)}, {coq_list(coq_str(t) for t in body)})"] = None
+    except Exception as ex:
+        lcases[f"((false, false, false, false, false, false), [], [\"{type(ex).__name__}\"])"] = None
+
+
 def repr_simple(s: str) -> bool:
     """str whose repr OptEmit.py_repr renders: printable ASCII, no backslash, not both kinds of quotes"""
     return all(32 <= ord(c) < 127 and c != "\\" for c in s) and not ("'" in s and '"' in s)
@@ -859,6 +948,9 @@ def gen_table(rng, unions: bool = True, inherit: bool = True, generics: float = 
             else:                                    # own Config; it keeps at least the parent's keyword flags
                 o = replace(o, fon=o.fon or pc.o.fon, fba=o.fba or pc.o.fba, fdl=o.fdl or pc.o.fdl, fcx=o.fcx or pc.o.fcx,
                             lazy=o.lazy and mixin)
+                if not config_lines(o, "D" if o.cfgd is not None else None):
+                    # an option vector that sets nothing writes no Config class at all: the parent's Config is inherited
+                    o, own_cfg, cfg_owner = pc.o, False, pc.cfg_owner
         taken = {f.name for f in inherited}
         names = rng.sample([x for x in NAMES if x not in taken], rng.randint(1, 3 if inherited else 4))   # >= 3 names are free
         aliases = rng.sample(ALIASES, len(ALIASES))
@@ -869,12 +961,13 @@ def gen_table(rng, unions: bool = True, inherit: bool = True, generics: float = 
                 k = rng.random()
                 if unions and len(later) >= 2 and k < 0.3:
                     mem = rng.sample(later, rng.randint(2, min(3, len(later))))
-                    # a specialised generic class is a union member only in first position, and only one of them: after
-                    # another member, that member's call `value.__mashumaro_to_dict__()` succeeds on the generic instance
-                    # with the UNSPECIALISED method -- already in the option-free twin (the plain output itself is off:
-                    # a defect of union packing, not of the options; reported, outside this property)
-                    spec = [m for m in mem if table[m].generic and table[m].targ]
-                    mem = tuple(spec[:1] + [m for m in mem if m not in spec])
+                    # a specialised generic class is no union member: its method has a name of its own
+                    # (__mashumaro_to_dict_<hash of the type arguments>__), so (a) after another member, that member's call
+                    # `value.__mashumaro_to_dict__()` succeeds on the generic instance with the UNSPECIALISED method -- already
+                    # in the option-free twin (the plain output itself is off: a defect of union packing, not of the options;
+                    # reported, outside this property) -- and (b) as first member its call never succeeds on instances of the
+                    # other members, which the first-accepting-member rule of the model (OptNested.pick) does not describe
+                    mem = tuple(m for m in mem if not (table[m].generic and table[m].targ)) or (rng.choice(later),)
                     if len(mem) >= 2:
                         fields.append(DcField(nm, mem, False, al, False))
                     else:
@@ -1426,7 +1519,7 @@ def run_generic(ctx: vlib.Ctx, ncases: list[str], ninfo: list, ccases: list[str]
             NCls(Opts(), (ga, gv, leaf), False, **gk),
         ]
         for ik, inner in enumerate(inner_kinds):
-            f = shapes[(ik + rng.randrange(len(shapes))) % len(shapes)]
+            f = shapes[(ik + rng.randrange(len(shapes))) % (len(shapes) if not gk["targ"] else len(shapes) - 1)]    # no unions of specialisations
             outer = NCls(Opts(cfg=(rng.choice(TRI), "U", "U"), fon=ik == 1 or rng.random() < 0.3, fdl=ik == 0),
                          (f, FieldSpec("w", "int", "val", "1", "W", False)), True)
             table = [outer, inner, other]
@@ -1492,7 +1585,7 @@ def record_failure(ctx, ev: Eval, rep: dict, sig: dict):
     ctx.fail(ev.what[:300], rep, sig)
 
 
-def run_flat(ctx: vlib.Ctx, cases: list[str], case_info: list, ecases: dict | None = None):
+def run_flat(ctx: vlib.Ctx, cases: list[str], case_info: list, ecases: dict | None = None, lcases: dict | None = None):
     rng = ctx.rng
     n_classes = ctx.budget(260, 2600)
     for ci in range(n_classes):
@@ -1515,6 +1608,8 @@ def run_flat(ctx: vlib.Ctx, cases: list[str], case_info: list, ecases: dict | No
             continue
         if ecases is not None and entry != "codec" and ci % 3 == 0:
             emitted_cases(ns, "X", fields, ns["CallD"] if o0.call is not None else None, ecases)
+        if lcases is not None and entry != "codec":
+            loop_case(ns, "X", ns["CallD"] if (o0.call is not None and ci % 2) else None, lcases)
         variants = [o0] if entry == "codec" else kw_variants(o0, rng, 2)
         for o in variants:
             for _ in range(2):
@@ -1691,8 +1786,9 @@ def run(ctx: vlib.Ctx):
         "defaults (flag_defaults_ok), union member flags (ok_h: flags_eqb), a bounded type variable left unbound "
         "(K17_bound_refuted; vals_ok excludes its None); oracle-only known finding: dialect-specific method of a specialised "
         "generic class (dialect-drops-type-args; such calls are kept out of the Coq cases)",
-        "a specialised generic class is a Union member in first position only (after another member the option-free twin "
-        "itself serializes it with the unspecialised method: union packing, outside this property)",
+        "a specialised generic class is not a Union member (after another member the option-free twin itself serializes "
+        "it with the unspecialised method: union packing, outside this property; as first member its specially named "
+        "method never accepts the other members' instances, which OptNested.pick does not describe)",
         "nested: mixin roots (codec path forwards no flags and hands its default dialect to every class by design); "
         "dataclass-typed fields have no default other than None / default_factory=list",
         "hooks, context values, format encoders (to_json ...) and lazy compilation do not change the mapping: exercised "
@@ -1706,7 +1802,7 @@ def run(ctx: vlib.Ctx):
     ctx.theorems("props/C08_kernel_K14.vo", ["K14_passdown", "K14_pass_dd"], kernels=["K14"])
     ctx.theorems("props/C08_kernel_K17.vo", ["K17_nullable", "K17_nullable_declared_partial", "K17_bound_refuted"], kernels=["K17"])
     ctx.theorems("props/C08_kernel_K18.vo", ["K18_bookkeeping", "K18_use_kwargs"], kernels=["K18", "K8"])
-    ctx.theorems("props/C08_kernel_K108a.vo", ["K108a_set_value", "K108a_emit_kw"], kernels=["K108a"])
+    ctx.theorems("props/C08_kernel_K108a.vo", ["K108a_set_value", "K108a_emit_kw", "K108a_field"], kernels=["K108a"])
     ctx.theorems("props/C08_project.vo", thm)
     ctx.theorems("props/C08_fix.vo", ["C08_project_fixed_full"])
     ctx.theorems("props/C08_nested.vo", ["C08_nested_partial", "C08_union_flags_refuted", "C08_subclass_flags_refuted", "C08_forwarded_exactly", "C08_no_leak",
@@ -1718,16 +1814,17 @@ def run(ctx: vlib.Ctx):
         with vlib.Lock("build"):
             rc, out, _ = vlib.run(["timeout", "600", "coqchk", "-silent", "-o", "-Q", "theories", "Verif", "-Q", "gen", "VerifGen",
                                    "-Q", "props", "VerifProps", "VerifProps.C08_project", "VerifProps.C08_nested",
-                                   "VerifProps.C08_kernel_K3", "VerifProps.C08_kernel_K8", "VerifProps.C08_kernel_K14", "VerifProps.C08_kernel_K17", "VerifProps.C08_kernel_K18", "VerifProps.C08_kernel_K13F"], cwd=vlib.COQ, timeout=640)
+                                   "VerifProps.C08_kernel_K3", "VerifProps.C08_kernel_K8", "VerifProps.C08_kernel_K14", "VerifProps.C08_kernel_K17", "VerifProps.C08_kernel_K18", "VerifProps.C08_kernel_K13F", "VerifProps.C08_kernel_K108a", "VerifProps.C08_fix"], cwd=vlib.COQ, timeout=640)
         ok = rc == 0 and "Axioms: <none>" in out
-        ctx.obligation("coqchk -o (C08_project, C08_nested, C08_kernel_K3, C08_kernel_K8): no axioms", ok, out[-600:])
+        ctx.obligation("coqchk -o (C08_project, C08_nested, C08_fix, C08_kernel_K3/K8/K13F/K14/K17/K18/K108a): no axioms", ok, out[-600:])
         if not ok:
             ctx.not_shown("coqchk", out[-1500:])
 
     cases: list[str] = []
     info: list = []
     ecases: dict = {}
-    run_flat(ctx, cases, info, ecases)
+    lcases: dict = {}
+    run_flat(ctx, cases, info, ecases, lcases)
     run_lattice(ctx, cases, info)
     run_edge(ctx, cases, info)
 
@@ -1797,6 +1894,20 @@ def run(ctx: vlib.Ctx):
     else:
         detail = f"{len(bad)} cases, first: {elist[bad[0]][:600]}" if bad else ""
         ctx.correspondence(name, len(elist), len(bad), detail)
+        if bad:
+            ctx.not_shown("correspondence " + name, detail)
+
+    name = "loop-text-K108a-vs-_add_pack_method_lines"
+    llist = list(lcases)
+    bad, log = vlib.coq_bad_idx("c08_loop", "OptProj PyK_c08 OptEmit", "From VerifGen Require Import K108a.", LOOP_DEFS, llist,
+                                "lcase_ok", "(bool * bool * bool * bool * bool * bool) * list fcase * list string",
+                                shard=200, needs=["theories/OptEmit.vo"])
+    if bad is None:
+        ctx.correspondence(name, len(llist), -1, log)
+        ctx.not_shown("correspondence " + name, log)
+    else:
+        detail = f"{len(bad)} cases, first: {llist[bad[0]][:900]}" if bad else ""
+        ctx.correspondence(name, len(llist), len(bad), detail)
         if bad:
             ctx.not_shown("correspondence " + name, detail)
 
